@@ -6,11 +6,18 @@ HOOKS = {
     "source_commits": [],
     "add_only": True,
 }
-NOTES = ("Every check = proof gate (lake build, forbidden-token scan, #print axioms of the property theorems) + correspondence "
+NOTES = ("Every check = proof gate (lake build, forbidden-token scan, #print axioms of the property theorems; for C02 C03 C04 C10 C11 C12 also "
+         "the generated-model gate: re-translation of the Python sources by tools/py2lean.py and re-check of BBProofs/GenEq.lean) + correspondence "
          "(real bblean from /repo vs the compiled Lean model on the same histories) + direct oracle search; see DESIGN.md §2.2. "
          "Fix commits in /repo: see known_findings.json.")
 TB = ("Trusted: Lean kernel (axioms propext, Classical.choice, Quot.sound only); the hand-written model's reading of the code, tied by "
       "differential correspondence on generated histories (not a proof about the Python code); CPython/NumPy float semantics. ")
+GEN = (" TRANSLATOR TIE: tools/py2lean.py re-translates {src} of /repo's working tree into Lean on every run (lean/BBGen/Gen.lean; "
+       "Python/NumPy arithmetic = the value algebra BBModel/PyNum.lean); BBProofs/GenEq.lean proves that the generated functions equal "
+       "the hand-written model's, and the `{prop}_code_*` theorems restate the property for the generated code itself; if the regenerated "
+       "text differs from the committed one, Gen/GenEq/the property file are re-checked in a scratch directory and a theorem that no "
+       "longer closes is reported by name. S-GEN runs every generated function and the real Python function on the same arguments.")
+TGEN = "Lean 4 theorem over executable model + Python-to-Lean translator (model regenerated from source each run) + differential correspondence"
 NOT_CLAIMED: dict = {}
 CLAIMS = {
     "C01": {
@@ -31,20 +38,22 @@ CLAIMS = {
                 "= column sums of exactly those members, centroid = majority vote with ties set, width = narrowest holding the count; "
                 "C02_no_wrap_merge / _update: width-limited NumPy arithmetic equals unbounded arithmetic on exact summaries at every width "
                 "(255/256, 65535/65536, 2^32-1/2^32); C02_majority, C02_aligned, C02_narrowest. Correspondence compares stored sums, counts, "
-                "dtypes and centroids of every leaf sub-cluster with the model after every operation.",
+                "dtypes and centroids of every leaf sub-cluster with the model after every operation."
+                + GEN.format(src="utils.min_safe_uint and _py_similarity.centroid_from_sum", prop="C02"),
         "note": TB + "Hypothesis: the history is consistent with a labelling D (fit rows are what D says, refine gets the fitted rows), reset-free "
                 "segment. Counts >= 2^64 (where min_safe_uint raises) are modelled as a rejected merge; unreachable. The float comparison "
                 "`ls >= n*0.5` is modelled as 2k >= n (exact for n < 2^53).",
-        "technique": "Lean 4 theorem over executable model + differential correspondence",
+        "technique": TGEN,
     },
     "C03": {
         "text": "Theorem C03_threshold: every reported cluster with >= 2 members satisfies stat(criterion) >= threshold for a configuration "
                 "in force at some insertion of the history (inForce), where stat is the library's own float formula (iSIM / radius "
                 "complement, transcribed with its rounding points); C03_never: with never-merge in force every cluster is a singleton; "
-                "C03_accept_sound. The oracle recomputes the statistic with bblean's functions from the input rows.",
+                "C03_accept_sound. The oracle recomputes the statistic with bblean's functions from the input rows."
+                + GEN.format(src="the six __call__ bodies of _merges.py and get_merge_accept_fn", prop="C03"),
         "note": TB + "The bound is about the library's computed float statistic (C11 relates it to the exact rational). inForce lists "
                 "configurations since the start of the history, not only since the last reset.",
-        "technique": "Lean 4 theorem over executable model + differential correspondence",
+        "technique": TGEN,
     },
     "C09": {
         "text": "Theorems C09_recluster / C09_refine: from every reachable state, each cluster (for refine: each cluster outside the n "
@@ -59,10 +68,11 @@ CLAIMS = {
         "text": "Theorems over the transcription of the six accept functions: C10_mono_thr (monotone in the threshold), C10_accept_sound "
                 "(acceptance implies statistic >= threshold), C10_radius_iff / C10_diameter_iff, C10_singleton, C10_tol_iff, "
                 "C10_slack_nonneg / _mono / _zero, C10_mono_tol, C10_legacy, C10_never, C10_dispatch. Correspondence: the real accept "
-                "objects called twice each in shuffled order across instances vs the (pure) model; laws re-evaluated on the real functions.",
+                "objects called twice each in shuffled order across instances vs the (pure) model; laws re-evaluated on the real functions."
+                + GEN.format(src="_merges.py (six __call__ bodies, the __init__ methods, get_merge_accept_fn) with jt_isim_from_sum / jt_isim_radius_compl_from_sum", prop="C10"),
         "note": TB + "np.exp is a parameter (E n = exp(-1e-3 n)) assumed antitone with off = E 1000; both are checked on n = 0..6001. "
                 "Statistics are NaN-free because new_n >= 2 in every merge.",
-        "technique": "Lean 4 theorem over executable model + differential correspondence",
+        "technique": TGEN,
     },
     "C11": {
         "text": "C11_exact: jt_isim_from_sum (transcribed with its uint64 wrap-around and float rounding points) equals the correctly "
@@ -71,21 +81,23 @@ CLAIMS = {
                 "bit-exactness and `<= 1` fail above 2^52 (identical fingerprints, n = 77490642, give 1 + 2^-52; reproduced on the real code); "
                 "C11_no_wrap: no uint64 intermediate wraps below 2^64; C11_empty, C11_pair (two fingerprints: Tanimoto), C11_perm_rows / _cols "
                 "at every magnitude, C11_wrappers, C11_compl, C11_range, C11_defined. Correspondence exhaustive for n <= 5 (6), width <= 3 "
-                "(4), random up to n*sum(k) < 2^63, all wrappers packed/unpacked.",
+                "(4), random up to n*sum(k) < 2^63, all wrappers packed/unpacked."
+                + GEN.format(src="_py_similarity.jt_isim_from_sum and similarity.jt_isim_radius_compl_from_sum / _radius_from_sum / _diameter_from_sum", prop="C11"),
         "note": TB + "'Equals the exact rational' is read as float equality with the correctly rounded value where that holds (< 2^52) and as the "
                 "proved relative error bound above (plain equality is false there: C11_gt_one). Whichever implementation the import switch "
                 "selects: only the NumPy fallback exists in this sandbox (C13 ties the kernels).",
-        "technique": "Lean 4 theorem over executable model + differential correspondence",
+        "technique": TGEN,
     },
     "C12": {
         "text": "C12_jt (packed Tanimoto = rnd(|A and B| / |A or B|) for non-empty union), C12_jt_empty, C12_jt_range, C12_symm, C12_matrix, "
                 "C12_word_byte (uint64-view popcount = byte popcount), C12_packed, C12_unpack_pack / C12_pack_unpack for every feature "
                 "count, C12_centroid (majority, ties set), C12_medoid (valid index minimising complementary similarity), C12_dissim "
                 "(valid indices, similarities to exactly those rows). Correspondence exhaustive for widths <= 4 (6) bits over all pairs, "
-                "random widths 1..4096, misaligned buffers.",
+                "random widths 1..4096, misaligned buffers."
+                + GEN.format(src="_py_similarity.centroid_from_sum", prop="C12"),
         "note": TB + "Memory alignment is not expressible in the model (the word view is alignment-free there): exercised by the harness only. "
                 "np.packbits / unpackbits / bitwise_count are trusted to be what the model's pack/unpack/popcount transcribe (tied by correspondence).",
-        "technique": "Lean 4 theorem over executable model + differential correspondence",
+        "technique": TGEN,
     },
     "C20": {
         "text": "C20_reader (for every sample sequence and every interleaving of writer file effects and reader steps, a completed read "
@@ -126,10 +138,11 @@ CLAIMS = {
         "text": "C04_chunking (from every reachable state, one fit of xs ++ ys equals two consecutive fits, any cut), C04_packed (unpack . pack "
                 "= id for every feature count), C04_pages / _disjoint / _none (the page-release counter machine releases only whole "
                 "steps inside the mapped file and behind the read cursor, never twice). Correspondence: every representation x dtype x "
-                "chunking of the same rows against one model run, a fresh subprocess, and recorded madvise calls vs the model machine.",
+                "chunking of the same rows against one model run, a fresh subprocess, and recorded madvise calls vs the model machine."
+                + GEN.format(src="_memory._ArrayMemPagesManager (from_bb_input, should_release_curr_page, release_curr_page_and_update_addr)", prop="C04"),
         "note": TB + "PARTIAL: determinism across runs/processes, NumPy's memmap offset conventions and the kernel's madvise are runtime behaviour "
                 "the model cannot exhibit (exercised, not proved). Integer dtypes are a representation of the harness; the model sees bits.",
-        "technique": "Lean 4 theorems over executable model + cross-representation differential + wrapped madvise",
+        "technique": TGEN,
     },
     "C17": {
         "text": "C17_accept_iff (constructor and set_merge accept exactly the same criterion/tolerance arguments, names and objects), "
